@@ -42,10 +42,12 @@ const (
 	SecSetKind         // Resp.G<k> = VA<r>                        ill-typed value stored into an injected struct field
 	SecSetNil          // N<r>.X = 1                               field store through a nil injected pointer
 	SecRangeKey        // forRange x := MM<r> { H.KeyIs(r, x) }    the loop key is a local (named like everybody's local)
+	SecLocObj          // lo = H.Obj(r) ; lo.Ping(r)               a method called on an object kept in a local
+	SecLocObjReader    // lo.Ping(r) without assigning lo          must fail
 	numSecKinds
 )
 
-var secNames = [...]string{"Y", "Call", "AsgCall", "AsgKind", "Div", "Idx", "Nil", "Unknown", "Arg", "IfKind", "IfIdx", "IfNil", "Elif", "ForKind", "ForStep", "Unb", "Conc", "Local", "Reader", "Stop", "ShW", "ShR", "Upd", "Echo", "Opt", "IfCall", "ForRange", "MapIdx", "SetKind", "SetNil", "RangeKey"}
+var secNames = [...]string{"Y", "Call", "AsgCall", "AsgKind", "Div", "Idx", "Nil", "Unknown", "Arg", "IfKind", "IfIdx", "IfNil", "Elif", "ForKind", "ForStep", "Unb", "Conc", "Local", "Reader", "Stop", "ShW", "ShR", "Upd", "Echo", "Opt", "IfCall", "ForRange", "MapIdx", "SetKind", "SetNil", "RangeKey", "LocObj", "LocObjReader"}
 
 // FaultCapable reports whether a section hosts a fault point.
 func FaultCapable(k int) bool {
@@ -119,7 +121,7 @@ func (r *RuleDef) YieldKs() []int {
 		case SecY:
 			ks = append(ks, yk)
 			yk++
-		case SecRangeKey:
+		case SecRangeKey, SecLocObj:
 			ks = append(ks, yk)
 			yk++
 		case SecIfKind, SecIfIdx, SecIfNil, SecForStep, SecIfCall, SecForRange:
@@ -204,6 +206,11 @@ func (r *RuleDef) Render() string {
 			fmt.Fprintf(&b, "H.B(%d,%d)\nResp.G%d = VA%d\n", id, p, id%8, id)
 		case SecSetNil:
 			fmt.Fprintf(&b, "H.B(%d,%d)\nN%d.X = 1\n", id, p, id)
+		case SecLocObj:
+			fmt.Fprintf(&b, "lo = H.Obj(%d)\nH.Y(%d,%d)\nlo.Ping(%d)\n", id, id, yk, id)
+			yk++
+		case SecLocObjReader:
+			fmt.Fprintf(&b, "H.B(%d,%d)\nlo.Ping(%d)\n", id, p, id)
 		case SecRangeKey:
 			fmt.Fprintf(&b, "forRange x := MM%d {\nH.Y(%d,%d)\nH.KeyIs(%d, x)\n}\n", id, id, yk, id)
 			yk++
